@@ -541,6 +541,13 @@ impl Node {
         }
     }
 
+    /// Verification hook: the counter references are numbered from (to place it next to its wrap point).
+    #[cfg(edp_rs_verif)]
+    #[doc(hidden)]
+    pub fn reference_counter_verif(&self) -> &AtomicU32 {
+        &self.reference_counter
+    }
+
     pub fn make_reference(&self) -> ExternalReference {
         let id0 = self.reference_counter.fetch_add(1, Ordering::SeqCst);
         #[cfg(edp_rs_verif)]
